@@ -172,6 +172,7 @@ func checkPDFRoundTrip(t TB, c PDFCase) *ref.PDFResult {
 		failf(t, P, K, c, "%v", merr)
 	}
 	res, derr := ref.DecodePDF417(m)
+	colourVariant(t, P, K, c, EncSpec{Fam: "pdf417", Content: c.Content, A: c.Level}, m)
 	if derr != nil {
 		failf(t, P, K, c, "reference reader: %v", derr)
 	}
@@ -278,6 +279,25 @@ func TestC04Sweep(t *testing.T) {
 			if res != nil {
 				st.NonTrivial(H("sweep", j.kind, j.n, j.level))
 			}
+		})
+	})
+	// every byte value in six surroundings (inside upper case, lower case, digits, long digit run, alone, doubled)
+	var bytesweep []PDFCase
+	for b := 0; b < 256; b++ {
+		x := string([]byte{byte(b)})
+		for k, c := range []string{"AB" + x + "CD", "ab" + x + "cd", "12" + x + "34", "1234567890123" + x + "4567890123456", x, x + x, "A" + x + "b" + x + "1" + x + ";"} {
+			bytesweep = append(bytesweep, PDFCase{Content: BStr(c), Level: (b + k) % 9})
+		}
+	}
+	parallelFor(len(bytesweep), 16, func(i int) {
+		if ct.Failed() {
+			return
+		}
+		ct.guard(func() {
+			res := checkPDFRoundTrip(ct, bytesweep[i])
+			st.Eval()
+			c04Account(st, bytesweep[i], res)
+			st.Class("every byte value in seven surroundings")
 		})
 	})
 	if ct.Failed() {
